@@ -18,7 +18,7 @@ from vf.gens import inputs, reggen
 from vf.props import common
 from vf.refs import engine_model as em
 
-REAL_GENS = ("ctxdec", "nest", "layer", "seedmut", "echo", "expand", "overlap", "soup", "url", "cmd", "matryoshka")
+REAL_GENS = ("ctxdec", "nest", "layer", "seedmut", "echo", "expand", "overlap", "bom", "soup", "url", "cmd", "matryoshka")
 
 
 def plan(pid, tier, seed, exh=True, real=True, rand=True, stride3=6):
@@ -40,7 +40,7 @@ def plan(pid, tier, seed, exh=True, real=True, rand=True, stride3=6):
         for i in range(3 if quick else 5):
             shards.append({"name": f"rand{i}", "gen": "synth-rand", "seconds": secs})
     if real:
-        for g in REAL_GENS[: (7 if quick else len(REAL_GENS))]:
+        for g in REAL_GENS[: (8 if quick else len(REAL_GENS))]:
             shards.append({"name": g, "gen": g, "seconds": secs})
     return shards
 
